@@ -67,6 +67,10 @@ def run(ctx, module, weights, tags, n_quick=250, len_quick=60, n_thorough=4000, 
             r2 = hist.run_correspondence(ctx, hs, exe2, model)
             results.append(("debug/std-only", exe2, r2))
             configs.append("debug/std only")
+    if release_quick_filter is None:
+        # every history check runs the release profile too (the crate's debug_asserts vanish there): by default on
+        # every history whose iterator keeps its size_hint
+        release_quick_filter = lambda h: True
     if release_quick_filter is not None and not ctx.thorough():
         # quick tier: the release profile on the part of the tour where the two profiles can differ
         # for this property (debug_asserts / overflow checks vanish)
